@@ -48,32 +48,17 @@ type pathWalker struct {
 
 // inputGiven recognises `len(<recv>.X) != 0` / `== 0` / `> 0` and returns (X, truth of "given" on the true edge).
 func (w *pathWalker) inputGiven(cond ssa.Value) (string, bool, bool) {
-	bin, ok := cond.(*ssa.BinOp)
-	if !ok {
+	// any spelling of an emptiness test of one of the input's fields, in place or through a one-expression predicate
+	// (isSet(cv.From))
+	x, emptyOnTrue, ok := emptyTestOf(cond, true)
+	if !ok || x == nil {
 		return "", false, false
 	}
-	k, ok := bin.Y.(*ssa.Const)
-	if !ok || k.Value == nil || k.Int64() != 0 {
-		return "", false, false
-	}
-	call, ok := bin.X.(*ssa.Call)
-	if !ok {
-		return "", false, false
-	}
-	if bi, isB := call.Call.Value.(*ssa.Builtin); !isB || bi.Name() != "len" {
-		return "", false, false
-	}
-	f := fieldLoad(call.Call.Args[0])
+	f := fieldLoad(x)
 	if f == nil {
 		return "", false, false
 	}
-	switch bin.Op {
-	case token.NEQ, token.GTR:
-		return f.Name(), true, true
-	case token.EQL:
-		return f.Name(), false, true
-	}
-	return "", false, false
+	return f.Name(), !emptyOnTrue, true
 }
 
 func (w *pathWalker) walk(prev, b *ssa.BasicBlock, st *pathState, seen map[*ssa.BasicBlock]bool) {
